@@ -23,6 +23,8 @@ func init() {
 			"C41.R3 MPT: stdin read errors are fatal; logger silenced when stdout carries the document",
 			"C41.R5 siblings: the stream branch and the file branch of a handler run the same pkg/api operation",
 			"C41.R6 MPT: in a handler with a json flag, output lines are returned only behind a test of the flag",
+			"C41.R8 dominance: the overwrite guards of cmd/pdfcpu never look the name \"-\" up in the file system",
+			"C41.R9 flow: no reader interface in pkg/cli is built from a *os.File that can be nil",
 			"C41.R7 shape: the length of a page selection set is used for emptiness tests and capacity hints only",
 		},
 		Assumptions: []string{"cobra calls RunE and hands its error to Execute's caller"},
@@ -69,6 +71,10 @@ func runC41(c *Ctx) {
 	r.MinInst["C41.R6"] = 4
 	checkJSONFormatDecidedFirst(c)
 	r.MinInst["C41.R7"] = 8
+	r.MinInst["C41.R8"] = 2
+	checkDashNeverAPath(c)
+	r.MinInst["C41.R9"] = 1
+	checkNoTypedNilReader(c)
 	checkSelectionSetLength(c)
 	// reachability from exported api/cli entry points (for debug dumps)
 	var roots []*ssa.Function
